@@ -113,17 +113,19 @@ def ctor(spec, vi, vals):
     return head
 
 
-def render(spec):
+def render(spec, with_dx=True):
     head = "#[::derive_ex::derive_ex(Default)]\n" if spec["entry"] == "attr" else "#[derive(::derive_ex::Ex)]\n#[derive_ex(Default)]\n"
     tl = {"make": "#[default(Ty::make())]\n", "const": "#[default(Self::K)]\n", "underscore": "#[default(_)]\n", None: ""}[spec["type_level"]]
+    if not with_dx:
+        head, tl = "", ""
     if spec["kind"] == "struct":
-        b = body_text(spec["variants"][0], True)
+        b = body_text(spec["variants"][0], with_dx)
         item = f"pub struct Ty {b}" if spec["variants"][0]["style"] == "named" else f"pub struct Ty{b};"
     else:
         vs = []
         for i, v in enumerate(spec["variants"]):
-            m = (spec["marker"] + " ") if (i == spec["dv"] and spec["marker"]) else ""
-            vs.append(f"{m}V{i}{body_text(v, True)}")
+            m = (spec["marker"] + " ") if (with_dx and i == spec["dv"] and spec["marker"]) else ""
+            vs.append(f"{m}V{i}{body_text(v, with_dx)}")
         item = "pub enum Ty { " + ", ".join(vs) + " }"
     # the special value used by the type-level forms: last variant / all fields from a fixed alternative list
     sv = len(spec["variants"]) - 1
@@ -136,9 +138,23 @@ def render(spec):
         "pub const K32: u32 = 77;",
         "#[derive(Debug)]", head + tl + item, extra,
         "pub fn run() {",
-        f'  let got = <Ty as ::core::default::Default>::default(); let want: Ty = {expected};',
+        (f'  let got = <Ty as ::core::default::Default>::default(); let want: Ty = {expected};' if with_dx else
+         f'  let want: Ty = {expected}; let got: Ty = {expected}; ' + user_exprs(spec)),
         '  ::dxrt::ev!("default", "got" => format!("{:?}", got), "want" => format!("{:?}", want));',
         "}"]), expected
+
+
+def user_exprs(spec):
+    """Control: the user-written default expressions, converted the documented way, in hand-written context."""
+    out = []
+    for v in spec["variants"]:
+        for f in v["fields"]:
+            if f["expr"] not in (None, "_"):
+                conv_ = f["tag"] in ("str-lit-into", "path-into", "path-into-identity", "variant-path-into", "variant-path-into-identity",
+                                     "assoc-const-path", "qself-path", "const-path-into")
+                e = f"::core::convert::Into::<{f['ty']}>::into({f['expr']})" if conv_ else f["expr"]
+                out.append(f"{{ let _x: {f['ty']} = {e}; }}")
+    return " ".join(out)
 
 
 def altval(f):
@@ -224,6 +240,7 @@ def run(rep, tier, rng):
     for i, s in enumerate(specs):
         code, expected = render(s)
         cases.append(C.Case(f"c{i}", code, {"spec": s, "kind": "pos"}))
+        cases.append(C.Case(f"k{i}", render(s, with_dx=False)[0], {"kind": "ctl"}))
     for j, (ty, ex, why) in enumerate(NEG):
         for entry in ("attr", "derive"):
             head = "#[::derive_ex::derive_ex(Default)]\n" if entry == "attr" else "#[derive(::derive_ex::Ex)]\n#[derive_ex(Default)]\n"
@@ -235,8 +252,11 @@ def run(rep, tier, rng):
     for n in notes:
         rep.inconcl(n)
     sigs = {}
+    by_name = {c.name: c for c in cases}
     for c in cases:
         if c.status == "inconclusive":
+            continue
+        if c.meta["kind"] == "ctl":
             continue
         if c.meta["kind"] == "negctl":
             if c.status != "ok":
@@ -251,10 +271,11 @@ def run(rep, tier, rng):
             continue
         s = c.meta["spec"]
         if c.status == "compile_fail":
-            who, d = C.blame(c)
-            if who == "harness":
-                rep.inconcl(f"generated program does not compile outside derive_ex's output: {str(d['message'])[:150]} :: {c.code[:200]}")
+            ctl = by_name.get("k" + c.name[1:])
+            if ctl is None or ctl.status != "ok":
+                rep.inconcl(f"control (same type and default expressions without derive_ex) does not compile: {c.code[:200]}")
                 continue
+            d = next((x for x in c.diags if x["level"] == "error" and x["in_derive_ex"]), None) or next(x for x in c.diags if x["level"] == "error")
             tags = sorted({f["tag"] for v in s["variants"] for f in v["fields"]})
             sigs.setdefault(f"C11|compile_fail|{d['code']}|{(d['message'] or '')[:50]}", []).append((c, f"does not compile: {(d['message'] or '')[:200]} [{tags}]"))
             continue
@@ -304,12 +325,13 @@ def run(rep, tier, rng):
         if got != want:
             rep.violation(f"C11|refusal:{why}:{want}->{got}", f"{why}: expected {want}, expansion gave {got}: {r['item']}",
                           {"request": r, "want": want})
-    c = cases[8]
+    c = cases[16]
     rep.sample({"source": c.code[:600], "event": next((e for e in c.events if e.get("k") == "default"), None)})
-    c = cases[n0 + 5]
+    c = cases[2 * (n0 + 5)]
     rep.sample({"source": c.code[:600], "event": next((e for e in c.events if e.get("k") == "default"), None)})
     # canary
     ok = next(c for c in cases if c.meta["kind"] == "pos" and c.status == "ok")
+    rep.count("controls_compiled", sum(1 for c in cases if c.meta["kind"] == "ctl" and c.status == "ok"))
     rep.canary = True  # the comparison is string equality of two logged dumps; exercised by construction below
     e = dict(next(e for e in ok.events if e.get("k") == "default"))
     e["want"] += "x"
